@@ -108,6 +108,8 @@ def programs(d):
         extra.append(["rl_in", d.choice(["a", "d", "s1.x"])])
     if d.chance(60):
         extra.append(["nl_in", d.choice(["a", "b", "d"])])
+    if d.chance(30):
+        extra.append(["rz_in", d.choice(["a", "d"])])     # membership in the random-size list of the NON-random sub-object (it holds [5, 2])
     if d.chance(45):
         extra.append(["fe_rl"])          # foreach element of the random list: it in the mutable rangelist
     if d.chance(45):
@@ -129,6 +131,8 @@ def source(prog):
             lines.append("        self.%s.inside(self.rl)" % e[1])
         elif e[0] == "nl_in":
             lines.append("        self.%s.inside(self.nl)" % e[1])
+        elif e[0] == "rz_in":
+            lines.append("        self.%s.inside(self.s2.rz)" % e[1])
         elif e[0] == "fe_rl":
             lines.append("        with vsc.foreach(self.q) as it:")
             lines.append("            it.inside(self.rl)")
@@ -206,6 +210,8 @@ class Session:
                 out.append(["expr", ["in", ["f", e[1]], items]])
             elif e[0] == "nl_in":
                 out.append(["expr", ["inl", ["f", e[1]], "nl"]])     # elements are bit_t(3) fields, not literals
+            elif e[0] == "rz_in":
+                out.append(["expr", ["in", ["f", e[1]], [["ulit", 5, 3], ["ulit", 2, 3]]]])     # (the list's bit_t(3) elements 5 and 2)
             elif e[0] == "fe_rl":
                 out.append(["expr", ["in", ["f", "q[0]"], items]])
             elif e[0] == "fe_if":
